@@ -13,6 +13,8 @@ import (
 // WriterSpec names a location class and the only functions allowed to write it.
 // Kind "map": MapUpdate (insertions) into the map held by package-level variable
 // Target ("pkgpath.Name"). Kind "field": stores to field Target ("pkgpath.Type.field").
+// Kind "calls": static calls (also go/defer) of function Target ("pkgpath.Func"); Allowed
+// entries may be qualified with the short package name ("fstree.writeFile").
 type WriterSpec struct {
 	Kind    string   `json:"kind"`
 	Target  string   `json:"target"`
@@ -35,6 +37,12 @@ func (e *Engine) checkWriters(ws WriterSpec) (offenders []string, sites int) {
 		for _, b := range fn.Blocks {
 			for _, ins := range b.Instrs {
 				hit := false
+				if ci, ok := ins.(ssa.CallInstruction); ok && ws.Kind == "calls" {
+					if sc := ci.Common().StaticCallee(); sc != nil && sc.Pkg != nil && sc.Signature.Recv() == nil &&
+						sc.Pkg.Pkg.Path()+"."+sc.Name() == ws.Target {
+						hit = true
+					}
+				}
 				switch x := ins.(type) {
 				case *ssa.MapUpdate:
 					if ws.Kind == "map" && tracesToGlobal(x.Map, ws.Target) {
@@ -64,7 +72,7 @@ func (e *Engine) checkWriters(ws WriterSpec) (offenders []string, sites int) {
 				if hit {
 					sites++
 					t := funcTarget(fn)
-					if !allowed[t] {
+					if !allowed[t] && !allowed[shortPkg(funcPkgPath(fn))+"."+t] {
 						offenders = append(offenders, shortPkg(funcPkgPath(fn))+"."+t+" ("+e.pos(ins.Pos())+")")
 					}
 				}
